@@ -1,11 +1,14 @@
 import MW.Drv.Amt
+import MW.Drv.Led
 open MW
 structure DSt where
   sAmt : Drv.Amt.St := Drv.Amt.init
+  sLed : Drv.Led.St := Drv.Led.init
 
 def dstep (st : DSt) (line : String) : DSt × String :=
   match (line.trimAscii.toString.splitOn " ").filter (· ≠ "") with
   | "amt" :: args => let (s, o) := Drv.Amt.step st.sAmt args; ({ st with sAmt := s }, o)
+  | "led" :: args => let (s, o) := Drv.Led.step st.sLed args; ({ st with sLed := s }, o)
   | ["reset"] => ({}, "ok")
   | _ => (st, "bad-engine")
 
